@@ -529,7 +529,7 @@ def search(run: lib.Run, broken):
 # ----------------------------------------------------------------------------------
 
 def replay(payload):
-    if payload.get("hierarchy") or payload.get("reserved"):
+    if payload.get("hierarchy") or payload.get("reserved") or payload.get("history_replay"):
         return bindtie.replay(payload)
     sig = payload["sig"]
     ns, _ = build_forms(sig)
